@@ -8,7 +8,7 @@ CONSTANTS
   NCALLS = 2
   FIXED = TRUE
   ERRS = {FALSE}
-  TTL = TRUE
+  TTL = FALSE
   CLEAR = FALSE
 INVARIANT QInv
 INVARIANT PNoCrash
